@@ -5,7 +5,10 @@ use errno::{errno, Errno};
 use std::ffi::{c_void, CStr};
 use std::mem::size_of;
 use std::ptr;
+#[cfg(not(feature = "verif"))]
 use std::sync::atomic;
+#[cfg(feature = "verif")]
+use crate::verif::atomic;
 
 use crate::shm_header::ShmHeader;
 use crate::{syserror, ClockErrorBound, ShmError};
@@ -26,6 +29,8 @@ impl FdGuard {
         if fd < 0 {
             return syserror!(concat!("open"));
         }
+        #[cfg(feature = "verif")]
+        crate::verif::stop_point("reader:after_open");
 
         Ok(FdGuard(fd))
     }
@@ -62,6 +67,8 @@ impl MmapGuard {
     fn new(fdguard: &FdGuard) -> Result<Self, ShmError> {
         // Read the header so we know how much to map in memory.
         let header = ShmHeader::read(fdguard.0)?;
+        #[cfg(feature = "verif")]
+        crate::verif::stop_point("reader:after_header_read");
 
         // This consumes the segsize, but we only needed the header for validation and extracting
         // the segment size. So the move is fine here.
@@ -82,6 +89,8 @@ impl MmapGuard {
         if segment == libc::MAP_FAILED {
             return syserror!("mmap SHM segment");
         }
+        #[cfg(feature = "verif")]
+        crate::verif::map(segment.cast(), segsize, false);
 
         Ok(MmapGuard { segment, segsize })
     }
@@ -93,6 +102,8 @@ impl Drop for MmapGuard {
         // SAFETY: `segment` was previously returned from `mmap`, and therefore
         // when this destructor runs there are no more live references into
         // it.
+        #[cfg(feature = "verif")]
+        crate::verif::unmap(self.segment.cast(), self.segsize);
         unsafe {
             let ret = libc::munmap(self.segment, self.segsize);
             assert!(ret == 0);
@@ -267,7 +278,10 @@ impl ShmReader {
         while retries > 0 {
             // Read the ClockErrorBound data from the shared memory
             // SAFETY: `ceb_at` has been checked to be valid while creating the ShmReader
+            #[cfg(not(feature = "verif"))]
             let snapshot = unsafe { self.ceb_shm.read_volatile() };
+            #[cfg(feature = "verif")]
+            let snapshot = unsafe { crate::verif::data_read(self.ceb_shm) };
 
             // Confirm no update occurred during the read
             let second_gen = generation.load(atomic::Ordering::Acquire);
